@@ -354,7 +354,7 @@ def main():
     ap = argparse.ArgumentParser()
     ap.add_argument('prop'); ap.add_argument('--tier', default=os.environ.get('VERIF_TIER', 'quick'), choices=['quick', 'thorough'])
     ap.add_argument('--only', default=''); ap.add_argument('--keep', action='store_true'); ap.add_argument('--jobs', type=int, default=int(os.environ.get('VERIF_JOBS', '14')))
-    ap.add_argument('--no-evidence', action='store_true')
+    ap.add_argument('--no-evidence', action='store_true'); ap.add_argument('--variant', default='', help='debugging: only variants whose tag contains this (implies --no-evidence)')
     ap.add_argument('--replay', default='', help='replay record (json) written by an earlier run: re-run its inputs against the real code')
     a = ap.parse_args()
     t0 = time.time()
@@ -387,7 +387,8 @@ def main():
         for k in set(o.ir for o in obs): run.module(k)
         if any(o.real for o in obs): run.build_real()
         print(f'[{a.prop}] sources captured (IR and real-code build done; /repo is not read again)', flush=True)
-        tasks = [(o, v) for o in obs for v in o.variants]
+        tasks = [(o, v) for o in obs for v in o.variants if a.variant in variant_tag(v)]
+        if a.variant: a.no_evidence = True
         # heavier (longer time-out) first
         tasks.sort(key=lambda t: -t[0].timeout)
         results = []
@@ -405,7 +406,7 @@ def main():
                 for n in r['notes']: print('    note:', n[:1500], flush=True)
         # counterexamples: replay against the real code
         violations = []; inconclusive = []
-        replays_dir = os.path.join(VERIF, 'replays', a.prop);
+        replays_dir = os.path.join(os.environ.get('VERIF_REPLAYS_DIR', os.path.join(VERIF, 'replays')), a.prop)
         for o, r in results:
             if r['status'] == 'inconclusive': inconclusive.append(r); continue
             if r['status'] != 'counterexample': continue
